@@ -79,7 +79,7 @@ class ConfigId:
 
     @classmethod
     def create_from_str(cls, configname: str) -> "ConfigId":
-        mobj = re.match(r"(\d{5})-(\d{4})-(\d{4})-(\d{2})( (.*))?", configname)
+        mobj = re.fullmatch(r"(\d{5})-(\d{4})-(\d{4})-(\d{2})( (.*))?", configname)
         if mobj:
             return cls(
                 customer=int(mobj.group(1)),
@@ -89,7 +89,7 @@ class ConfigId:
                 name=mobj.group(6),
             )
         else:
-            mobj = re.match(r"(.*) \(version (\d{2})\)", configname)
+            mobj = re.fullmatch(r"(.*) \(version (\d{2})\)", configname)
             if mobj:
                 return cls(
                     customer=None,
